@@ -219,30 +219,36 @@ func popcount(x int) int {
 	return n
 }
 
-func (e *env) timesA() int {
-	if e.r.Thorough() {
-		return 6
-	}
-	return 3
-}
-
-// tablesA enumerates the tables of this tier/mode in a fixed order.
-// drifted mode: the full product 48^3 in both tiers.
-// same-registration mode: quick = tables over fee {none, 1.0} (32^3), thorough = full.
-func (e *env) runTables(shard, nshards int, drift bool, feeSet []int, times int, txs aTxs) {
-	w := e.w
-	var rows []int
-	for o := 0; o < nOpt; o++ {
-		for _, f := range feeSet {
-			if o/16 == f {
-				rows = append(rows, o)
-			}
+// failing counts the base conditions (in snapshot, account, fee, metrics) row o fails.
+func failing(o int) int {
+	d := decode(o)
+	n := 0
+	for _, ok := range []bool{d.InSnap, d.Acct, d.Fee != 0, d.Metrics} {
+		if !ok {
+			n++
 		}
 	}
+	return n
+}
+
+// runTables enumerates tables in a fixed order. maxFar bounds the number of
+// validators whose row fails two or more of the four base conditions (3 = the
+// full product 48^3; 1 = 18^3 + 3*30*18^2 = 34,992 tables; 0 = 18^3 = 5,832).
+func (e *env) runTables(shard, nshards int, drift bool, maxFar int, times int, txs aTxs) {
+	w := e.w
 	idx := 0
-	for _, o0 := range rows {
-		for _, o1 := range rows {
-			for _, o2 := range rows {
+	for o0 := 0; o0 < nOpt; o0++ {
+		for o1 := 0; o1 < nOpt; o1++ {
+			for o2 := 0; o2 < nOpt; o2++ {
+				far := 0
+				for _, o := range []int{o0, o1, o2} {
+					if failing(o) >= 2 {
+						far++
+					}
+				}
+				if far > maxFar {
+					continue
+				}
 				idx++
 				if idx%nshards != shard {
 					continue
@@ -267,17 +273,15 @@ func (e *env) runTables(shard, nshards int, drift bool, feeSet []int, times int,
 
 func (e *env) partA(shard, nshards int) {
 	txs := e.buildATxs()
-	times := e.timesA()
-	e.r.Extra["a_block_times"] = fmt.Sprintf("%d consecutive seconds", times)
-	all := []int{0, 1, 2}
-	e.runTables(shard, nshards, true, all, times, txs)
 	if e.r.Thorough() {
-		e.r.Extra["a_same_registration_tables"] = "full 48^3"
-		e.runTables(shard, nshards, false, all, times, txs)
-	} else {
-		e.r.Extra["a_same_registration_tables"] = "sub-product fee in {none,1.0}: 32^3, 1 block time"
-		e.runTables(shard, nshards, false, []int{0, 2}, 1, txs)
+		e.r.Extra["a_product"] = "drifted and same registration: full 48^3 tables x MEV{no,yes} x 6 consecutive block times"
+		e.runTables(shard, nshards, true, 3, 6, txs)
+		e.runTables(shard, nshards, false, 3, 6, txs)
+		return
 	}
+	e.r.Extra["a_product"] = "quick sub-product: drifted registration: the 34,992 tables in which at most one validator fails two or more of {in snapshot, account, fee, metrics} (every row for every validator) x MEV{no,yes} x 3 consecutive block times; same registration: the 5,832 tables in which no validator does x MEV{no,yes} x 1 block time; thorough enumerates the full 48^3 product in both modes"
+	e.runTables(shard, nshards, true, 1, 3, txs)
+	e.runTables(shard, nshards, false, 0, 1, txs)
 }
 
 func (e *env) replayA(c caseA) {
